@@ -1030,6 +1030,10 @@ func (g *Gen) enterLoop(fr *Frame, li *loopInfo, st *State, r string, order []*s
 		}
 		g.vc.assume(r, v)
 	}
+	if len(li.invs) > 0 && g.dry == 0 {
+		g.addObligation(&Obligation{Name: fmt.Sprintf("%s.loop[%s].cover.invariants-satisfiable", fr.topKey(), li.invs[0].Anchor), Func: fr.topKey(), Kind: "cover",
+			Guard: r, Goal: "false", Expect: "sat", Src: "vacuity guard: the loop invariants are jointly satisfiable at the loop head"})
+	}
 	return st
 }
 
